@@ -566,6 +566,40 @@ def r5_key_acceptance(rep, src, M):
         rep.fail('C02.R5', f.site, 'every policy-valid field name is accepted', bad + ': building, assigning and re-parsing such a field raises ValueError', where=f.where)
 
 
+def r6_filter_before_split(rep, src, M):
+    """comment lines and leading blank lines are dropped before the paragraph boundary is looked for: every call of the paragraph
+    splitter (split_gpg_and_payload, or gpg_stripped_paragraph which forwards to it) outside the splitter itself receives lines
+    that went through _skip_useless_lines.  A reader entry that hands the raw lines over takes a leading comment block followed by
+    a blank line for the whole paragraph."""
+    m = src.mod('deb822')
+    splitters = {'split_gpg_and_payload', 'gpg_stripped_paragraph'}
+    n = 0
+    for q, fn in sorted(m.funcs.items()):
+        if q.split('.')[-1] in splitters:
+            continue
+        fnode, _ = normalize.inline_helpers(fn)
+        for c in ast.walk(fnode):
+            if not (isinstance(c, ast.Call) and isinstance(c.func, ast.Attribute) and c.func.attr in splitters and c.args):
+                continue
+            n += 1
+            arg = c.args[0]
+            filtered = any(isinstance(x, ast.Call) and isinstance(x.func, ast.Attribute) and x.func.attr == '_skip_useless_lines' for x in ast.walk(arg))
+            if not filtered and isinstance(arg, ast.Name):
+                # a local bound once to filtered lines
+                binds = [st for st in ast.walk(fnode) if isinstance(st, ast.Assign) and len(st.targets) == 1 and norm(st.targets[0]) == arg.id]
+                filtered = bool(binds) and all(any(isinstance(x, ast.Call) and isinstance(x.func, ast.Attribute) and x.func.attr == '_skip_useless_lines' for x in ast.walk(b_.value))
+                                                for b_ in binds)
+            what = 'lines are filtered before the paragraph is cut out'
+            if filtered:
+                rep.ok('C02.R6', fn.site, what, '%s(_skip_useless_lines(...))' % c.func.attr)
+            else:
+                rep.fail('C02.R6', fn.site, what, 'line %d hands the raw input lines to %s: a comment block followed by a blank line at the start of the input (given as a list of lines or a '
+                         'file object) is taken for the paragraph, and the object comes out empty, while the same text given as str or bytes is parsed' % (c.lineno, c.func.attr),
+                         where='%s:%d' % (fn.module.relpath, c.lineno))
+    if n < 2:
+        raise AnalysisError('only %d calls of the paragraph splitter found (2 confirmed on the pinned tree)' % n)
+
+
 def check(src, rep, tier):
     rep.explanation = ('C02: the dump template of Deb822._dump_format is extracted (E3) and instantiated with the property\'s value '
                        'grammar (empty / empty first line + continuation / text first line / blank first line); the text language is '
@@ -581,9 +615,11 @@ def check(src, rep, tier):
     rep.need('C02.R3', 4)
     rep.need('C02.R4', 5)
     rep.need('C02.R5', 1)
+    rep.need('C02.R6', 2)
     M = Model(src, rep)
     rep.guard('C02.R1', r1_agreement, src, M)
     rep.guard('C02.R2', r2_normalisation, src, M)
     rep.guard('C02.R3', r3_twins, src, M)
     rep.guard('C02.R4', r4_accumulation, src, M)
     rep.guard('C02.R5', r5_key_acceptance, src, M)
+    rep.guard('C02.R6', r6_filter_before_split, src, M)
